@@ -62,7 +62,8 @@ class NumEval:
             if init is None:
                 raise _NoEval("local %s" % e.get("name"))
             return self.ev(init, depth + 1)
-        if k == "Block" and not e.get("stmts"):
+        if k == "Block" and all(st.get("k") == "Let" for st in e.get("stmts", [])):
+            # locals are resolved lazily through let_of
             return self.ev(e.get("tail") if e.get("tail") is not None else e.get("expr"), depth + 1)
         if k == "Binary":
             op = e["op"]
@@ -234,6 +235,10 @@ def r_sol_errmap(rep, f):
             raise _NoEval("match")
         if k == "MethodCall" and e.get("name") in ("then", "then_some") and len(e["args"]) == 1:
             return "Some" if boolv(e["recv"], dense, depth + 1) else "None"
+        if k == "Call" and (e.get("def") or "") in f.bodies and f.inlinable(e["def"]):
+            # a private helper building the Option: evaluate its body (its reads of Options::dense_output mean the same flag)
+            hb = f.bodies[e["def"]]["body"]
+            return some_none(hb, dense, at_line, depth + 1)
         if k == "MethodCall" and e.get("name") in ("filter",) and len(e["args"]) == 1:
             raise _NoEval("filter")
         raise _NoEval("node %s" % k)
@@ -464,8 +469,16 @@ def r_seg_lookup(rep, f):
         tested = 0
         bad = None
         unknown = None
+        preds = []
         for lp in loops:
             for i_ in tast.find(lp["body"], lambda z: z.get("k") == "If" and tast.contains(z["then"], lambda q: q.get("k") == "Return")):
+                preds.append(i_["cond"])
+        # iterator form: segs.iter().find(|seg| <membership>) / position / filter
+        for c_ in tast.find(b["body"], lambda z: z.get("k") == "MethodCall" and z.get("name") in ("find", "position", "rposition", "filter", "find_map") and z["args"] and z["args"][0].get("k") == "Closure"):
+            preds.append(c_["args"][0]["body"])
+        for cond_ in preds:
+            if True:
+                i_ = {"cond": cond_}
                 for xold, h in ((0.0, 1.0), (1.0, -1.0)):
                     for tv, want in ((-1.0, False), (0.0, True), (0.5, True), (1.0, True), (2.0, False)):
                         def leaf(e, xold=xold, h=h, tv=tv):
@@ -624,3 +637,78 @@ def r_bdf_dense(rep, f):
         rep.violation("R-BDF-DENSE", key, "the dense block BDF::solve writes and the one BDF::interpolate reads disagree: %s" % "; ".join(probs[:3]), wif.get("sp"))
     else:
         rep.ok("R-BDF-DENSE", key, "for every order 1..%d: slots 1..order hold D_1..D_order and are the ones interpolate sums (with p[0..order-1])" % max_order)
+
+
+# ------------------------------------------------------------------------------------------ R-SPAN-ENDS (C06)
+def r_span_ends(rep, f):
+    """the span a dense solution reports is (start of the first stored step, end of the last stored step) in the order
+    of integration: t_span() == (segs.first().xold, segs.last().xold + segs.last().h) symbolically (helpers of dense.rs
+    interpreted in place). Sorting the ends (min/max) would make sol(xend) fail for backward runs."""
+    from symx import SymExec, Hooks
+    fn = CONT + "t_span"
+    b = f.bodies.get(fn)
+    key = "R-SPAN-ENDS:t_span"
+    if b is None:
+        rep.inconc("R-SPAN-ENDS", key, "%s not found" % fn)
+        return
+    rep.fn(fn)
+
+    class SX(SymExec):
+        def inline_ok(self, d, rec):
+            return d.startswith(("dense::", "<dense::")) and bool(rec.get("has_body"))
+    sx = SX(f, fn, Hooks())
+    sx.bind_params()
+    ret = sx.eval(b["body"])
+    from poly import DEFS as _D
+    a = ret.single_atom() if isinstance(ret, Poly) else None
+    d = _D.get(a) if a else None
+    tup = None
+    if d and d[0].startswith("call:") and d[0].endswith("Some") and d[1] and isinstance(d[1][0], Poly):
+        ta = d[1][0].single_atom()
+        td = _D.get(ta) if ta else None
+        if td and td[0] == "tuple" and len(td[1]) == 2:
+            tup = td[1]
+    if tup is None:
+        rep.inconc("R-SPAN-ENDS", key, "t_span does not end in Some((start, end)): %r" % (ret,))
+        return
+    key_of = {}
+    for k_, nm in sx.names.items():
+        key_of.setdefault(nm, k_)
+
+    def which_end(root_key):
+        v = sx.st.get(root_key) if sx.st else None
+        at = v.single_atom() if isinstance(v, Poly) else None
+        dd = _D.get(at) if at else None
+        while dd and dd[0] in ("unwrap", "as_ref") and isinstance(dd[1][0], Poly) and dd[1][0].single_atom():
+            dd = _D.get(dd[1][0].single_atom())
+        if dd and dd[0] in ("first", "last"):
+            return dd[0], repr(dd[1][0])
+        return None, None
+
+    def field_atom(p):
+        """atom `<local>.<field>` -> (which end the local is, place, field)"""
+        at = p.single_atom()
+        if not at or "." not in at:
+            return None
+        k_ = key_of.get(at)
+        if not k_ or "." not in k_:
+            return None
+        root = k_.rsplit(".", 1)[0]
+        end, place = which_end(root)
+        return (end, place, at.rsplit(".", 1)[1]) if end else None
+    start, end = tup
+    probs = []
+    fs = field_atom(start) if isinstance(start, Poly) else None
+    if not fs or fs[0] != "first" or fs[2] != "xold":
+        probs.append("the start is %r, not the first stored step's xold" % (start,))
+    ok_end = False
+    if isinstance(end, Poly) and len(end.t) == 2 and all(c == 1 and len(m) == 1 and m[0][1] == 1 for m, c in end.t.items()):
+        parts = [field_atom(Poly.atom(m[0][0])) for m in end.t]
+        if all(parts) and {p_[2] for p_ in parts} == {"xold", "h"} and all(p_[0] == "last" for p_ in parts) and (not fs or all(p_[1] == fs[1] for p_ in parts)):
+            ok_end = True
+    if not ok_end:
+        probs.append("the end is %s, not the last stored step's xold + h (the end in the order of integration)" % (repr(end)[:160],))
+    if probs:
+        rep.violation("R-SPAN-ENDS", key, "; ".join(probs) + ": for a backward run sol() would reject times inside the final step", b.get("sp"))
+    else:
+        rep.ok("R-SPAN-ENDS", key, "t_span() = (first.xold, last.xold + last.h)")
